@@ -346,7 +346,7 @@ LEVEL_TEXT = ("Theorems over ALL scripts of read events and every parser, for th
               "the session still owes it its end; once the peer has closed or reset the connection handle_connection returns through the block after the loop - unless "
               "routecore itself panics - with the state BgpSessionModel gives for the events seen (Bulks of own routes, one Withdraw iff negotiated and not rejected, the key "
               "out of live_sessions); a refused frame is the last thing looked at; a length field below 18 parks the session until the stream ends; an accepted UPDATE leaves "
-              "as one Bulk of exactly the events of C04's decoder. Refuted for the code before repair 900a933 (the FSM lets go of the connection without ConnectionLost: the "
+              "as one Bulk of exactly the events of C04's decoder. Refuted for the code before repair 89678d1 (the FSM lets go of the connection without ConnectionLost: the "
               "loop waited for ever) and, with routecore as observed, for a second OPEN (todo!() in routecore: known finding). "
               "MRT reader (Mrt/MrtModel.v): a hostile file is unreadable or a prefix of its records; C06_mrt_file_is_local: the queue behind it runs as on its own, its "
               "contribution is a prefix of the undamaged file's, the RIB is built from exactly these updates.")
